@@ -345,6 +345,7 @@ class PlainQuantity(Generic[MagnitudeT], PrettyIPython, SharedRegistryObject):
         return not bool(tmp.dimensionality)
 
     _dimensionality: UnitsContainerT | None = None
+    _dimensionality_of: UnitsContainerT | None = None
 
     @property
     def dimensionality(self) -> UnitsContainerT:
@@ -354,8 +355,11 @@ class PlainQuantity(Generic[MagnitudeT], PrettyIPython, SharedRegistryObject):
         dict
             Dimensionality of the PlainQuantity, e.g. ``{length: 1, time: -1}``
         """
-        if self._dimensionality is None:
+        # In-place operations (*=, /=, **=, ito, ...) rebind self._units: the memo is
+        # only valid for the units it was computed from.
+        if self._dimensionality is None or self._dimensionality_of is not self._units:
             self._dimensionality = self._REGISTRY._get_dimensionality(self._units)
+            self._dimensionality_of = self._units
 
         return self._dimensionality
 
